@@ -234,6 +234,8 @@ class Frame:
         f = self.__class__(axis, {}, index if index is not None else self.index, self.idkey)
         if getattr(self, "_ncols", None) is not None:
             f._ncols = self._ncols
+        if getattr(self, "_dedup", None):
+            f._dedup = list(self._dedup)
         for k, c in (cols if cols is not None else self.cols).items():
             f.cols[k] = c if isinstance(c, Poison) else V(c.t, (axis,), f.index, c.nan, c.inf, c.meta)
         return f
@@ -275,6 +277,8 @@ class Frame:
                     interp.ctx.assume(disjoint)
         new = RowAxis(ax.root, [z3.Or(*ax.doms)], ("flattened", ax.order))
         f = self.__class__(new, {}, ("flattened", self.index), self.idkey)
+        if getattr(self, "_dedup", None):
+            f._dedup = list(self._dedup)
         for k, c in self.cols.items():
             if isinstance(c, Poison):
                 f.cols[k] = c
@@ -425,6 +429,8 @@ class Frame:
                 order = parts[0] if len(parts) == 1 else ("concat",) + tuple(parts)
             new = RowAxis(self.axis.root, doms, order)
             f = self.__class__(new, {}, ("labels", self.index), self.idkey)
+            if getattr(self, "_dedup", None):
+                f._dedup = list(self._dedup)
             for k, c in self.cols.items():
                 if isinstance(c, Poison):
                     f.cols[k] = c
@@ -824,7 +830,11 @@ def _m_drop_duplicates(self, interp):
             prev = [ax.doms[j] for j in range(i)]
             doms.append(z3.And(d, z3.Not(z3.Or(*prev))) if prev else d)
         new = RowAxis(ax.root, doms, ax.order, sel=ax.sel)
-        return self._new(new, index=("labels", self.index))
+        out = self._new(new, index=("labels", self.index))
+        # ghost: the rows of this frame have been through a de-duplicating operation (under V1 it changes nothing; a
+        # contract about REPEATED ids -- which V1 excludes -- asks for this mark instead)
+        out._dedup = list(getattr(self, "_dedup", None) or []) + [f"drop_duplicates(subset={subset!r})"]
+        return out
 
     return drop_duplicates
 
@@ -910,6 +920,8 @@ def merge_frames(interp, left, right, how="inner", on=None, suffixes=("_x", "_y"
     order = left.axis.order if how in ("inner", "left") else ("sorted", tuple(on))
     ax = RowAxis(root, [dom], order)
     out = Frame(ax, {}, ("range", ax.name), left.idkey)
+    if getattr(left, "_dedup", None) or getattr(right, "_dedup", None):
+        out._dedup = list(getattr(left, "_dedup", None) or []) + list(getattr(right, "_dedup", None) or [])
     lnames, rnames = list(left.cols), list(right.cols)
     overlap = [c for c in lnames if c in rnames and c not in on]
 
@@ -1633,6 +1645,8 @@ def pd_concat(interp):
                 order += tuple(("part", oo, i) for i in range(len(o.axis.doms)))
         ax = RowAxis(root, doms, order)
         out = Frame(ax, {}, ("concat",) + tuple(o.index for o in objs), objs[0].idkey)
+        if any(getattr(o, "_dedup", None) for o in objs):
+            out._dedup = [d for o in objs for d in (getattr(o, "_dedup", None) or [])]
         names = []
         for o in objs:
             for k in o.cols:
